@@ -51,6 +51,7 @@ type Responder struct {
 	OtherSer   bool                // answer about another serial
 	NextUpdate time.Duration       // 0: absent; negative: in the past
 	Mutate     func(der []byte) []byte
+	Slow       time.Duration // answers are delivered after this delay
 	Bulk       int // when > 0: answers carry a non-critical single extension of this many bytes (responses of CAs that
 	// embed responder chains, archive cutoffs, CT data ... are several KiB; size must not change what an answer means)
 	Hits       int
@@ -218,6 +219,7 @@ func (r *Responder) serve(hit *NetHit) Delivery {
 		ans = a
 		ans.Delivered = true
 		d.Body, d.Doc, d.Intact = der, "ocsp:"+r.Status+"/"+r.Signer, true
+		d.Delay = r.Slow
 	case oDown:
 		d.Kind = dRefuse
 	case oHTTP500:
